@@ -135,3 +135,24 @@ package config
 //@ func parseScheme
 //@   trusted
 //@   assigns nothing
+
+//@ // ---- C15: list-valued options ----------------------------------------------------------------------------------
+//@ // every source funnels into Set; Set builds the new list in memory of its own - the list it replaces is the option's
+//@ // default (shared with the package's default configuration and with configurations handed out by earlier loads), so
+//@ // writing into it would change what "the default applies" means for the next load
+//@ func (*stringSliceValue).Set
+//@   props C15
+//@   requires v != nil
+//@   assigns deref(v)
+//@   ensures nopanic
+//@   ensures result == nil
+//@   ensures cap(deref(v)) == 0 || fresh(deref(v))
+//@   loop 1 invariant cap(deref(v)) == 0 || fresh(deref(v))
+//@
+//@ func (*floatSliceValue).Set
+//@   props C15
+//@   requires f != nil
+//@   assigns deref(f)
+//@   ensures nopanic
+//@   ensures cap(deref(f)) == 0 || fresh(deref(f))
+//@   loop 1 invariant cap(deref(f)) == 0 || fresh(deref(f))
